@@ -540,7 +540,7 @@ def sval_cases(ctx, cfg, n):
     o_bad = Opts(short_floats=False, bad_keys=True, numlit='a' in L)
     vs = list(fixed_svals(o_bad))
     for i in range(n):
-        o = o_bad if i % 5 == 0 else o_ok
+        o = o_bad if i % 3 == 0 else o_ok
         vs.append(rand_sval(rng, rng.choice([1, 2, 2, 3, 3, 4]), o))
     return vs
 
@@ -737,8 +737,8 @@ def run_c03(ctx):
                 'UTF-8 per buffer, output parses back to the data-model image computed independently in Python, compact has no whitespace, pretty = layout of the '
                 'compact tokens, hints irrelevant, entry points agree.  non-trivial = distinct accepted cases with more than 12 output bytes')
     ctx.violations += shape_check(ctx)
-    n = 2500 if ctx.tier == 'quick' else 20000
-    nd = 1500 if ctx.tier == 'quick' else 12000
+    n = 12000 if ctx.tier == 'quick' else 60000
+    nd = 6000 if ctx.tier == 'quick' else 40000
     for cfg in ctx.cfgs:
         svals = sval_cases(ctx, cfg, n)
         for s in svals[:3]:
@@ -836,7 +836,7 @@ def run_c15(ctx):
                 'most floats are short literals): to_value(t) printed canonically vs the extracted Coq model of value/ser.rs, and the relation itself evaluated on the '
                 'implementation: to_value ok <=> to_string ok, same rejection code, to_value(t) == from_str(to_string(t)) except the two documented exceptions '
                 '(f32 widening, 128-bit integers outside [i64::MIN, u64::MAX] without arbitrary_precision), which are counted; non-trivial = distinct accepted trees')
-    n = 6000 if ctx.tier == 'quick' else 60000
+    n = 25000 if ctx.tier == 'quick' else 150000
     for cfg in ctx.cfgs:
         svals = tv_cases(ctx, cfg, n)
         for s in svals[:3]:
@@ -907,7 +907,7 @@ def judge_wf(ctx, cfg, svals):
 
 def run_c13_writer(ctx):
     """writer half of C13: called by the C13 check for each of its configurations"""
-    n = 400 if ctx.tier == 'quick' else 4000
+    n = 1500 if ctx.tier == 'quick' else 10000
     for cfg in ctx.cfgs:
         rng = ctx.rng
         L = ctx.letters(cfg)
